@@ -23,7 +23,7 @@ TRUSTED = [
     'eager-syntax-error finding), expression evaluation beyond variable look-up / truthiness / iteration / string splice, attributes, '
     'py:choose/with/attrs/content/replace/strip, macro arguments, match paths other than a single element name, selections other than *|text(), '
     'absolute paths, search-path load functions other than directories, the loader cache bound and mtime checks (C15), '
-    'after a render that hit the recursion limit (fuel 24 vs 420 Python frames: different sets loaded) or an ill-formed file (a preparation that fails part-way: the model drops what was prepared inside it) the sequences are no longer compared',
+    'after a render that hit the recursion limit the sequence is compared on (outcomes and loader state) only when the model answers it alike with fuel 24 and fuel 72 (saturation: the set of templates loaded does not depend on where the limit is); otherwise it is cut there (counted). Fuel and Python frames are different units (macro recursion runs on _flatten\'s explicit stack, match recursion in nested _match generators, includes in nested generate() calls)',
     'fuel stands for Python recursion depth: "terminates" is compared (model fuel 24, Python recursion limit 420, generated terminating trees far below, '
     'diverging ones far above), not the exact depth at which CPython gives up; trees whose rendering exceeds a deterministic work bound on the real code '
     '(loads, events, match templates, match-list walks) are skipped and counted',
@@ -123,9 +123,13 @@ def w_reqs(case):
             for e, d in G.requests(case)]
 
 
+FUEL2 = 3 * FUEL   # the second fuel of the saturation test (see the sequence comparison in shard())
+
+
 def seq_lines(case):
     files = w_files(case)
-    return [proto.line(Atom('C11'), Atom('chainc'), Atom(m), FUEL, files, w_reqs(case)) for m in ('inline', 'runtime')]
+    return [proto.line(Atom('C11'), Atom('chainc'), Atom(m), fuel, files, w_reqs(case))
+            for m in ('inline', 'runtime') for fuel in (FUEL, FUEL2)]
 
 
 def _split_top(toks):
@@ -303,8 +307,9 @@ def shard(arg):
         if i in seq_at:
             res.count('requests-through-one-loader:%d' % len(G.requests(case)))
             for j, m in enumerate(('inline', 'runtime')):
-                dec = seq_outcomes(answers[seq_at[i] + j])
-                if dec is None:
+                dec = seq_outcomes(answers[seq_at[i] + 2 * j])
+                dec2 = seq_outcomes(answers[seq_at[i] + 2 * j + 1])
+                if dec is None or dec2 is None:
                     continue
                 mo, mc = dec
                 ro = [real[m]] + real[m + '_then']
@@ -315,7 +320,17 @@ def shard(arg):
                 # (the same after a TemplateSyntaxError: an ill-formed file -- outside the property's quantifier -- met
                 # while a template is being prepared leaves the templates prepared inside it before that point in the
                 # loader; the model's preparation drops its cache on an error)
+                # Saturation: fuel and Python frames are different units, so "which templates had been loaded when
+                # the limit was hit" is compared only where it does not depend on the limit: the model answers the
+                # whole sequence alike (outcomes and loader states) with fuel 24 and with fuel 72.  Then every
+                # template the endless descent ever loads is loaded within the first 24 levels, and the sequence is
+                # compared to its end.  Otherwise it is cut after the request that hit the limit, as before (counted).
                 CUT = (['err', 'RecursionError'],)
+                saturated = dec == dec2
+                if any(o in CUT for o in ro):
+                    res.count('sequence:RecursionError:' + ('saturated-no-cut' if saturated else 'not-saturated-cut'))
+                if saturated:
+                    CUT = ()
                 k = next((x + 1 for x, o in enumerate(ro) if o in CUT), len(ro))
                 if k < len(ro):
                     res.count('sequence:cut-after-%s' % ro[k - 1][1])
